@@ -100,7 +100,8 @@ func registerStandardExt() {
 			panic(err)
 		}
 	}
-	for _, p := range []psatoken.IProfile{ExtLaxIDProfile{}, ExtDefaultingProfile{}, ExtShadowProfile{}, ExtOddFieldsProfile{}, ExtP1With265Profile{}} {
+	// (the last one has a name that sorts before the built-in profiles' names)
+	for _, p := range []psatoken.IProfile{ExtLaxIDProfile{}, ExtDefaultingProfile{}, ExtShadowProfile{}, ExtOddFieldsProfile{}, ExtP1With265Profile{}, ExtTwoEmbedsProfile{}, ExtProfile{"http://acme.example/psa", 2}} {
 		if _, _, ok := psatoken.VerifRegistryEntry(p.GetName()); !ok {
 			if err := psatoken.RegisterProfile(p); err != nil {
 				panic(err)
@@ -679,3 +680,40 @@ func (o *ExtTwoLevelClaims) UnmarshalCBOR(d []byte) error {
 }
 func (o ExtTwoLevelClaims) MarshalJSON() ([]byte, error)  { return encoding.SerializeStructToJSON(&o) }
 func (o *ExtTwoLevelClaims) UnmarshalJSON(d []byte) error { return encoding.PopulateStructFromJSON(d, o) }
+
+// ExtTwoEmbedsClaims embeds two structs at the same level (the base claims and a block of vendor claims).
+type VendorBlock struct {
+	Vendor *string `cbor:"-75500,keyasint,omitempty" json:"vendor,omitempty"`
+	Model  *string `cbor:"-75501,keyasint,omitempty" json:"model,omitempty"`
+}
+type BuildBlock struct {
+	Build *int64 `cbor:"-75510,keyasint,omitempty" json:"build,omitempty"`
+}
+type ExtTwoEmbedsClaims struct {
+	psatoken.P2Claims
+	VendorBlock
+	BuildBlock
+}
+
+const ExtTwoEmbedsName = "http://example.com/psa/two-embeds"
+
+func (o *ExtTwoEmbedsClaims) Validate() error { return psatoken.ValidateClaims(o) }
+func (o ExtTwoEmbedsClaims) MarshalCBOR() ([]byte, error) {
+	return encoding.SerializeStructToCBOR(extEM, &o)
+}
+func (o *ExtTwoEmbedsClaims) UnmarshalCBOR(d []byte) error {
+	return encoding.PopulateStructFromCBOR(extDM, d, o)
+}
+func (o ExtTwoEmbedsClaims) MarshalJSON() ([]byte, error)  { return encoding.SerializeStructToJSON(&o) }
+func (o *ExtTwoEmbedsClaims) UnmarshalJSON(d []byte) error { return encoding.PopulateStructFromJSON(d, o) }
+
+type ExtTwoEmbedsProfile struct{}
+
+func (ExtTwoEmbedsProfile) GetName() string { return ExtTwoEmbedsName }
+func (ExtTwoEmbedsProfile) GetClaims() psatoken.IClaims {
+	ep := eat.Profile{}
+	if err := ep.Set(ExtTwoEmbedsName); err != nil {
+		panic(err)
+	}
+	return &ExtTwoEmbedsClaims{P2Claims: psatoken.P2Claims{Profile: &ep, SwComponents: &psatoken.SwComponents[*psatoken.SwComponent]{}, CanonicalProfile: ExtTwoEmbedsName}}
+}
